@@ -48,6 +48,7 @@ fn vk_c19_tt_reset_small() {
 }
 
 //@ obligation: C19.tt.occupancy
+//@ property: C19 C04 C13
 //@ domain: bounded(table of 3 slots)
 //@ functions: engine/transposition_table.rs::TranspositionTable<T>::occupancy
 //@ timeout: 900
